@@ -480,10 +480,13 @@ class FitBase(FileIOMixin, object):
 
     @data.setter
     def data(self, new_data):
+        _previous_data_container = self._data_container
         self._set_new_data(new_data)
         # validate cost function
         _data_and_cost_compatible, _reason = self._cost_function.is_data_compatible(self.data)
         if not _data_and_cost_compatible:
+            # rejected: keep the previous data (the data nodes were marked for update and will read it again)
+            self._data_container = _previous_data_container
             raise ValueError("Fit data and cost function are not compatible: %s" % _reason)
         self._set_new_parametric_model()
         # the model predictions depend on the data container (support values, bin edges, number of entries)
